@@ -87,8 +87,18 @@ func (e *C11) Run(c *core.Ctx, idx int) {
 	var top []*gen.Box
 	var named map[string]*gen.Box
 	var parts gen.CR3Parts
+	tiny := func() []byte { // the smallest legal TIFF blocks: header only, header + empty directory
+		h := []byte("II*\x00\x08\x00\x00\x00")
+		if r.Bool() {
+			h = []byte("MM\x00*\x00\x00\x00\x08")
+		}
+		return append(h, make([]byte, r.Pick(0, 2, 6, 7, 8, 9))...)
+	}
 	if heif {
 		t, _, _ := gen.SynthPayload(r, r.Bool(), 2)
+		if r.Chance(1, 5) {
+			t = tiny()
+		}
 		data = gen.BuildHEIF(r, t, r.Intn(4))
 		// recover the top-level layout with the harness's own walker
 		p := 0
@@ -103,6 +113,9 @@ func (e *C11) Run(c *core.Ctx, idx int) {
 		malformed = false
 	} else {
 		mk := func() []byte {
+			if r.Chance(1, 8) {
+				return tiny()
+			}
 			t, _, _ := gen.SynthPayload(r, r.Bool(), 2)
 			return t
 		}
@@ -347,7 +360,7 @@ func (e *C11) Run(c *core.Ctx, idx int) {
 		// every CMT box present must have produced exactly one callback with its own directory type
 		for nm, ty := range map[string]ifds.IfdType{"CMT1": ifds.IFD0, "CMT2": ifds.ExifIFD, "CMT3": ifds.MknoteIFD, "CMT4": ifds.GPSIFD} {
 			wantN := 0
-			if bx := named[nm]; bx != nil && len(bx.Payload) >= 16 {
+			if bx := named[nm]; bx != nil && len(bx.Payload) >= 8 {
 				wantN = 1
 			}
 			if cmtSeen[ty] != wantN {
